@@ -410,6 +410,10 @@ class Interp:
             self.assume_field_valid(kind, self.p.heap[key])
         return self.p.heap[key]
 
+    def ref_valid(self, t, cls):
+        ids = [self.p.ctx.class_id(c) for c in self.w.subclasses(cls)] or [self.p.ctx.class_id(cls)]
+        return z3.And(t > 0, z3.Or(*[self.p.ctx.dtype(t) == i for i in ids]))
+
     def assume_field_valid(self, kind, arrs):
         """Type invariants of a whole heap field (all objects), needed under quantifiers."""
         k, off = (kind.inner, 1) if isinstance(kind, K.Opt) else (kind, 0)
@@ -422,6 +426,14 @@ class Interp:
             mem = K.nsel(z3.Select(arrs[off + 1], o), xs)
             self.p.assume(z3.ForAll([o], size >= 0))
             self.p.assume(z3.ForAll([o] + xs, z3.Implies(mem, size > 0)))
+            if isinstance(k.elem, K.Ref):
+                self.p.assume(K.forall([o] + xs, z3.Implies(mem, self.ref_valid(xs[0], k.elem.cls)),
+                                       patterns=[mem]))
+            # a non-empty set has a member (explicit witness function)
+            wit = [self.p.fresh('hv!wit', z3.ArraySort(z3.IntSort(), srt)) for srt in k.elem.leaf_sorts()]
+            self.p.assume(K.forall([o], z3.Implies(size > 0, K.nsel(z3.Select(arrs[off + 1], o),
+                                                                    [z3.Select(wa, o) for wa in wit])),
+                                   patterns=[size]))
         elif isinstance(k, K.Map):
             self.p.assume(z3.ForAll([o], z3.And(z3.Select(arrs[off], o) >= 0, z3.Select(arrs[off + 1], o) >= 0)))
 
@@ -468,6 +480,9 @@ class Interp:
             xs = [self.p.fresh('sv', srt) for srt in k.elem.leaf_sorts()]
             self.p.assume(z3.Implies(v.terms[0] == 0, z3.ForAll(xs, z3.Not(K.nsel(v.terms[1], xs)))))
             self.p.assume(z3.ForAll(xs, z3.Implies(K.nsel(v.terms[1], xs), v.terms[0] > 0)))
+            if isinstance(k.elem, K.Ref):
+                self.p.assume(K.forall(xs, z3.Implies(K.nsel(v.terms[1], xs), self.ref_valid(xs[0], k.elem.cls)),
+                                       patterns=[K.nsel(v.terms[1], xs)]))
         elif isinstance(k, K.Map):
             self.p.assume(K.map_wf(v))
         elif isinstance(k, K.Tuple):
@@ -691,10 +706,15 @@ class Interp:
         out = self.p.fresh_value(a.kind, 'cat')
         i = self.p.fresh('cat!i', z3.IntSort())
         self.p.assume(K.seq_len(out) == n + m)
-        self.p.assume(z3.ForAll([i], z3.Implies(z3.And(0 <= i, i < n), z3.And(
-            *[z3.Select(o, i) == z3.Select(s, i) for o, s in zip(out.terms[1:], a.terms[1:])]))))
-        self.p.assume(z3.ForAll([i], z3.Implies(z3.And(0 <= i, i < m), z3.And(
-            *[z3.Select(o, n + i) == z3.Select(s, i) for o, s in zip(out.terms[1:], b.terms[1:])]))))
+        self.p.assume(K.forall([i], z3.Implies(z3.And(0 <= i, i < n), z3.And(
+            *[z3.Select(o, i) == z3.Select(s, i) for o, s in zip(out.terms[1:], a.terms[1:])])),
+            patterns=[z3.Select(out.terms[1], i)]))
+        self.p.assume(K.forall([i], z3.Implies(z3.And(n <= i, i < n + m), z3.And(
+            *[z3.Select(o, i) == z3.Select(s, i - n) for o, s in zip(out.terms[1:], b.terms[1:])])),
+            patterns=[z3.Select(out.terms[1], i)]))
+        self.p.assume(K.forall([i], z3.Implies(z3.And(0 <= i, i < m), z3.And(
+            *[z3.Select(o, n + i) == z3.Select(s, i) for o, s in zip(out.terms[1:], b.terms[1:])])),
+            patterns=[z3.Select(b.terms[1], i)]))
         return out
 
     def to_str(self, v):
@@ -961,7 +981,7 @@ BUILTINS = {'len', 'isinstance', 'list', 'tuple', 'set', 'dict', 'sorted', 'enum
             'reversed', 'all', 'any', 'super', 'OrderedDict', 'iter', 'type', 'min', 'max'}
 SPEC_BUILTINS = {'old', 'implies', 'iff', 'forall', 'exists', 'result', 'ite', 'dtype_is',
                  'raised', 'fresh_ref', 'range', 'live', 'key_at', 'log_len', 'distinct',
-                 'unchanged', 'const_seq', 'allocated', 'exc_attr', 'has_exc_attr', '_', 'text_type', 'fun', 'index_in', 'last_sorted', 'to_str', 'sel', 'is_none', 'some', 'truthy'}
+                 'unchanged', 'const_seq', 'allocated', 'exc_attr', 'has_exc_attr', '_', 'text_type', 'fun', 'index_in', 'last_sorted', 'use_lemma', 'to_str', 'sel', 'is_none', 'some', 'truthy'}
 
 MODULES = {'six', 'logging', 'logger', 'models', 'collections'}
 MODULE_BUILTINS = {'six.moves.range': 'range', 'six.iteritems': 'iteritems', 'six.iterkeys': 'iterkeys',
